@@ -26,12 +26,12 @@ func (c *fctx) cellKeys(t types.Type) []string {
 	}
 	if ar, ok := types.Unalias(t).Underlying().(*types.Array); ok {
 		es := c.S.SortOf(ar.Elem())
-		c.ensureRegion(c.elemKey(es), c.elemSort(es))
-		return []string{c.elemKey(es)}
+		c.ensureRegion(c.elemKey(ar.Elem()), c.elemSort(es))
+		return []string{c.elemKey(ar.Elem())}
 	}
 	srt := c.S.SortOf(t)
-	c.ensureRegion("P:"+srt, "(Array Int "+srt+")")
-	return []string{"P:" + srt}
+	c.ensureRegion(c.cellKey(t), "(Array Int "+srt+")")
+	return []string{c.cellKey(t)}
 }
 
 func (c *fctx) ensureRegion(key, sort string) {
@@ -45,125 +45,218 @@ func (c *fctx) ensureRegion(key, sort string) {
 	}
 }
 
-func (c *fctx) addrRegionKeys(v ssa.Value) []string {
+// wsEntry describes how a loop writes one heap region.
+type wsEntry struct {
+	full   bool     // written through a root that is neither loop-invariant nor freshly allocated
+	roots  []wsRoot // loop-invariant roots written
+	fresh0 bool     // written through a loop variable that the invariant declares fresh(...) (not allocated at function entry)
+}
+
+type wsRoot struct {
+	v     ssa.Value
+	slice bool
+}
+
+type wsCtx struct {
+	out      map[string]*wsEntry
+	li       *loopInfo // nil while scanning a callee body
+	seen     map[*ssa.Function]bool
+	inCallee bool
+}
+
+func (w *wsCtx) entry(k string) *wsEntry {
+	e := w.out[k]
+	if e == nil {
+		e = &wsEntry{}
+		w.out[k] = e
+	}
+	return e
+}
+
+func (w *wsCtx) full(ks ...string) {
+	for _, k := range ks {
+		w.entry(k).full = true
+	}
+}
+
+// add records a write to region k through base value `base` (nil: unknown root).
+func (w *wsCtx) add(k string, base ssa.Value, slice bool) {
+	e := w.entry(k)
+	if base == nil {
+		e.full = true
+		return
+	}
+	switch b := base.(type) {
+	case *ssa.Alloc, *ssa.MakeSlice, *ssa.MakeMap:
+		return // fresh object: cannot be a cell that existed before the loop
+	case *ssa.Slice:
+		if _, ok := b.X.(*ssa.Alloc); ok {
+			return
+		}
+	case *ssa.Convert:
+		if isString(b.X.Type()) {
+			return // []byte(s) allocates
+		}
+	}
+	if w.inCallee {
+		e.full = true
+		return
+	}
+	if phi, ok := base.(*ssa.Phi); ok && w.li != nil && phi.Block() == w.li.header && w.li.freshNames[phi.Comment] {
+		e.fresh0 = true
+		return
+	}
+	outside := false
+	switch b := base.(type) {
+	case *ssa.Parameter, *ssa.FreeVar, *ssa.Const, *ssa.Global, *ssa.Function:
+		outside = true
+	case ssa.Instruction:
+		outside = w.li != nil && !w.li.blocks[b.Block()]
+	}
+	if !outside {
+		e.full = true
+		return
+	}
+	for _, r := range e.roots {
+		if r.v == base && r.slice == slice {
+			return
+		}
+	}
+	e.roots = append(e.roots, wsRoot{base, slice})
+}
+
+// addrRoot returns the region keys and the base (pointer / slice) value of an address expression.
+func (c *fctx) addrRoot(v ssa.Value) (keys []string, base ssa.Value, slice bool) {
 	switch x := v.(type) {
 	case *ssa.FieldAddr:
 		switch x.X.(type) {
 		case *ssa.FieldAddr, *ssa.IndexAddr, *ssa.Global:
-			return c.addrRegionKeys(x.X)
+			return c.addrRoot(x.X)
 		}
 		st := types.Unalias(x.X.Type()).Underlying().(*types.Pointer).Elem()
 		si := c.S.StructOf(st)
 		if si == nil {
-			return nil
+			return nil, nil, false
 		}
 		f := si.Fields[x.Field]
 		k := "F:" + si.Name + "." + f.Name
 		c.ensureRegion(k, "(Array Int "+f.Sort+")")
-		return []string{k}
+		return []string{k}, x.X, false
 	case *ssa.IndexAddr:
 		var et types.Type
+		isSlice := false
 		switch t := types.Unalias(x.X.Type()).Underlying().(type) {
 		case *types.Slice:
 			et = t.Elem()
+			isSlice = true
 		case *types.Pointer:
 			et = types.Unalias(t.Elem()).Underlying().(*types.Array).Elem()
 		}
 		es := c.S.SortOf(et)
-		c.ensureRegion(c.elemKey(es), c.elemSort(es))
-		return []string{c.elemKey(es)}
+		c.ensureRegion(c.elemKey(et), c.elemSort(es))
+		return []string{c.elemKey(et)}, x.X, isSlice
 	case *ssa.Global:
 		k := "G:" + x.String()
 		c.ensureRegion(k, c.S.SortOf(x.Type().(*types.Pointer).Elem()))
-		return []string{k}
+		return []string{k}, nil, false
 	}
 	if pt, ok := types.Unalias(v.Type()).Underlying().(*types.Pointer); ok {
-		return c.cellKeys(pt.Elem())
+		return c.cellKeys(pt.Elem()), v, false
 	}
-	return nil
+	return nil, nil, false
 }
 
 func (c *fctx) mapKeys(mt *types.Map) []string {
-	ks, vs := c.S.SortOf(mt.Key()), c.S.SortOf(mt.Elem())
-	c.ensureRegion("MH:"+ks, "(Array Int (Array "+ks+" Bool))")
-	c.ensureRegion("MV:"+ks+":"+vs, "(Array Int (Array "+ks+" "+vs+"))")
-	c.ensureRegion("ML", "(Array Int Int)")
-	return []string{"MH:" + ks, "MV:" + ks + ":" + vs, "ML"}
+	c.ensureRegion(c.mapHasKey(mt), c.mapHasSort(mt))
+	c.ensureRegion(c.mapValKey(mt), c.mapValSort(mt))
+	c.ensureRegion(c.mapLenKey(mt), "(Array Int Int)")
+	return []string{c.mapHasKey(mt), c.mapValKey(mt), c.mapLenKey(mt)}
 }
 
 // instrWrites is the conservative syntactic write set of one instruction.
-func (c *fctx) instrWrites(fn *ssa.Function, in ssa.Instruction, out map[string]bool, seen map[*ssa.Function]bool, depth int) {
-	add := func(ks ...string) {
-		for _, k := range ks {
-			out[k] = true
-		}
-	}
+func (c *fctx) instrWrites(fn *ssa.Function, in ssa.Instruction, w *wsCtx, depth int) {
 	switch x := in.(type) {
 	case *ssa.Store:
-		add(c.addrRegionKeys(x.Addr)...)
+		ks, base, sl := c.addrRoot(x.Addr)
+		for _, k := range ks {
+			w.add(k, base, sl)
+		}
 	case *ssa.MapUpdate:
-		add(c.mapKeys(x.Map.Type().Underlying().(*types.Map))...)
+		for _, k := range c.mapKeys(x.Map.Type().Underlying().(*types.Map)) {
+			w.add(k, x.Map, false)
+		}
 	case *ssa.Alloc:
-		add("alloc")
-		add(c.cellKeys(x.Type().(*types.Pointer).Elem())...)
+		w.full("alloc")
+		for _, k := range c.cellKeys(x.Type().(*types.Pointer).Elem()) {
+			w.add(k, x, false)
+		}
 	case *ssa.MakeSlice:
-		es := c.S.SortOf(x.Type().Underlying().(*types.Slice).Elem())
-		c.ensureRegion(c.elemKey(es), c.elemSort(es))
-		add("alloc", c.elemKey(es))
+		et := x.Type().Underlying().(*types.Slice).Elem()
+		es := c.S.SortOf(et)
+		c.ensureRegion(c.elemKey(et), c.elemSort(es))
+		w.full("alloc")
+		w.add(c.elemKey(et), x, true)
 	case *ssa.MakeMap:
-		add("alloc")
-		add(c.mapKeys(x.Type().Underlying().(*types.Map))...)
+		w.full("alloc")
+		for _, k := range c.mapKeys(x.Type().Underlying().(*types.Map)) {
+			w.add(k, x, false)
+		}
 	case *ssa.Convert:
 		if isString(x.X.Type()) {
-			if _, ok := types.Unalias(x.Type()).Underlying().(*types.Slice); ok {
-				c.ensureRegion(c.elemKey("Int"), c.elemSort("Int"))
-				add("alloc", c.elemKey("Int"))
+			if sl, ok := types.Unalias(x.Type()).Underlying().(*types.Slice); ok {
+				c.ensureRegion(c.elemKey(sl.Elem()), c.elemSort("Int"))
+				w.full("alloc")
+				w.add(c.elemKey(sl.Elem()), x, true)
 			}
 		}
 	case *ssa.RunDefers:
 		for _, b := range fn.Blocks {
 			for _, i2 := range b.Instrs {
 				if d, ok := i2.(*ssa.Defer); ok {
-					c.callWrites(fn, d.Common(), out, seen, depth)
+					c.callWrites(fn, d.Common(), w, depth)
 				}
 			}
 		}
 	case *ssa.Call:
-		c.callWrites(fn, x.Common(), out, seen, depth)
+		c.callWrites(fn, x.Common(), w, depth)
 	}
 }
 
-func (c *fctx) callWrites(fn *ssa.Function, cm *ssa.CallCommon, out map[string]bool, seen map[*ssa.Function]bool, depth int) {
-	add := func(ks ...string) {
-		for _, k := range ks {
-			out[k] = true
-		}
-	}
+func (c *fctx) callWrites(fn *ssa.Function, cm *ssa.CallCommon, w *wsCtx, depth int) {
 	if b, ok := cm.Value.(*ssa.Builtin); ok {
 		switch b.Name() {
 		case "append", "copy":
-			es := c.S.SortOf(types.Unalias(cm.Args[0].Type()).Underlying().(*types.Slice).Elem())
-			c.ensureRegion(c.elemKey(es), c.elemSort(es))
-			add(c.elemKey(es))
+			et := types.Unalias(cm.Args[0].Type()).Underlying().(*types.Slice).Elem()
+			es := c.S.SortOf(et)
+			c.ensureRegion(c.elemKey(et), c.elemSort(es))
 			if b.Name() == "append" {
-				add("alloc")
+				w.full("alloc")
+				// in place (existing backing array) or fresh
+				w.add(c.elemKey(et), cm.Args[0], true)
+			} else {
+				w.add(c.elemKey(et), cm.Args[0], true)
 			}
 		case "delete":
-			add(c.mapKeys(types.Unalias(cm.Args[0].Type()).Underlying().(*types.Map))...)
+			for _, k := range c.mapKeys(types.Unalias(cm.Args[0].Type()).Underlying().(*types.Map)) {
+				w.add(k, cm.Args[0], false)
+			}
 		}
 		return
 	}
 	// closures passed as arguments may be called by the callee
 	scanFn := func(f *ssa.Function) {
-		if f == nil || seen[f] || depth > maxInlineDepth+2 {
+		if f == nil || w.seen[f] || depth > maxInlineDepth+2 {
 			return
 		}
-		seen[f] = true
+		w.seen[f] = true
+		save := w.inCallee
+		w.inCallee = true
 		for _, b := range f.Blocks {
 			for _, in := range b.Instrs {
-				c.instrWrites(f, in, out, seen, depth+1)
+				c.instrWrites(f, in, w, depth+1)
 			}
 		}
+		w.inCallee = save
 	}
 	for _, a := range cm.Args {
 		switch av := a.(type) {
@@ -181,15 +274,18 @@ func (c *fctx) callWrites(fn *ssa.Function, cm *ssa.CallCommon, out map[string]b
 	} else {
 		callee = cm.StaticCallee()
 		if callee == nil {
+			if mc, ok := cm.Value.(*ssa.MakeClosure); ok {
+				scanFn(mc.Fn.(*ssa.Function))
+			}
 			return
 		}
 		ct = c.P.ContractFor(callee)
 	}
 	if ct != nil && (callee == nil || !ct.Inline) {
-		add("alloc")
+		w.full("alloc")
 		if ct.Assigns != nil && !ct.Assigns.Nothing {
 			if ct.Assigns.Any {
-				add("*")
+				w.full("*")
 				return
 			}
 			e := c.specEnv(ct, nil, &state{h: map[string]string{}}, &state{h: map[string]string{}})
@@ -210,9 +306,9 @@ func (c *fctx) callWrites(fn *ssa.Function, cm *ssa.CallCommon, out map[string]b
 				}
 			}
 			for _, loc := range ct.Assigns.Locs {
-				for _, w := range c.locWrites(e, loc) {
-					c.ensureRegion(w.key, w.sort)
-					add(w.key)
+				for _, lw := range c.locWrites(e, loc) {
+					c.ensureRegion(lw.key, lw.sort)
+					w.full(lw.key)
 				}
 			}
 		}
@@ -221,18 +317,39 @@ func (c *fctx) callWrites(fn *ssa.Function, cm *ssa.CallCommon, out map[string]b
 	scanFn(callee)
 }
 
-func (c *fctx) loopWriteSet(fr *frame, li *loopInfo) map[string]bool {
-	out := map[string]bool{}
-	seen := map[*ssa.Function]bool{}
-	for b := range li.blocks {
-		for _, in := range b.Instrs {
-			c.instrWrites(fr.fn, in, out, seen, 0)
+func (c *fctx) loopWriteSet(fr *frame, li *loopInfo) map[string]*wsEntry {
+	li.freshNames = map[string]bool{}
+	if li.spec != nil {
+		var conj func(x spec.Expr)
+		conj = func(x spec.Expr) {
+			switch y := x.(type) {
+			case *spec.Binary:
+				if y.Op == "&&" {
+					conj(y.X)
+					conj(y.Y)
+				}
+			case *spec.Call:
+				if id, ok := y.Fun.(*spec.Ident); ok && id.Name == "fresh" && len(y.Args) == 1 {
+					if a, ok := y.Args[0].(*spec.Ident); ok {
+						li.freshNames[a.Name] = true
+					}
+				}
+			}
+		}
+		for _, inv := range li.spec.Invariants {
+			conj(inv.E)
 		}
 	}
-	if out["*"] {
+	w := &wsCtx{out: map[string]*wsEntry{}, li: li, seen: map[*ssa.Function]bool{}}
+	for b := range li.blocks {
+		for _, in := range b.Instrs {
+			c.instrWrites(fr.fn, in, w, 0)
+		}
+	}
+	if w.out["*"] != nil {
 		c.errorf("%s: loop %d calls a function that 'assigns anything' (unsupported inside loops)", fr.fn, li.ordinal)
 	}
-	return out
+	return w.out
 }
 
 // ---------------------------------------------------------------- variable lookup for invariants
@@ -470,7 +587,7 @@ type FuncVC struct {
 }
 
 func (p *Prog) newCtx(fn *ssa.Function) *fctx {
-	return &fctx{P: p, S: NewSorts(), fn: fn, regions: map[string]string{}, used: map[string]bool{}, pureDef: map[string]bool{}, nameCnt: map[string]int{}, ifaceSeen: map[string]types.Type{}}
+	return &fctx{P: p, S: NewSorts(), fn: fn, regions: map[string]string{}, keyTypes: map[string]types.Type{}, used: map[string]bool{}, pureDef: map[string]bool{}, nameCnt: map[string]int{}, ifaceSeen: map[string]types.Type{}}
 }
 
 // VerifyFunc generates all proof obligations of fn against its contract.
@@ -750,6 +867,10 @@ func (o *Obligation) Query(prelude string) string {
 	}
 	for _, d := range c.decls {
 		b.WriteString(d)
+		b.WriteString("\n")
+	}
+	for _, a := range c.closedHeapAxioms() {
+		b.WriteString(a)
 		b.WriteString("\n")
 	}
 	for _, a := range c.assumes[:o.nAssume] {
